@@ -455,6 +455,7 @@ func runC01(r *Run, verifDir string) {
 	c.checkValue()
 	valueStorageFresh(r, "C01.P6")
 	valueTagRecorded(r, "C01.P5")
+	(&lexCtx{r: r, p: r.P, ord: map[string]int{}}).x4BinaryReaderTotalAs("C01.P7")
 }
 
 // valueTagRecorded: ttlv.Value.TagDecodeTTLV records the tag it was asked to decode on every path that can return
